@@ -1,5 +1,5 @@
 (** MemStore — model of pkg/storage/mem (store.go, maxsize.go, message.go) as it is coded
-    (after fixes 0003, 0005, 0006).
+    (after fixes 0003, 0005, 0006 and ef5ff1e).
 
     A mailbox is [{first; last; messages}]: [messages] is the Go map id -> *Message, kept as
     an association list in insertion order and keyed by the message's [index] (the id string
@@ -80,8 +80,13 @@ Definition box_remove (mb : str) (i : mid) (boxes : list (str * mbox)) : option 
   | None => None
   end.
 
-(** The eviction loop of the enforcer: for curSize > maxSize { el := all.Front(); all.Remove(el);
-    if removeMessage(...) != nil { curSize -= size } }. [None] = all.Front() is nil: crash. *)
+(** The eviction loop of the enforcer (as of /repo ef5ff1e):
+      for curSize > maxSize { el := all.Front(); all.Remove(el); m.el = nil;
+                              s.removeMessage(m.mailbox, m.id); curSize -= m.Size() }
+    The result of removeMessage is ignored (a message another client already took out of its
+    mailbox emits no event here) and the size is subtracted unconditionally.
+    [None] = all.Front() is nil while curSize > maxSize: all.Remove(nil) dereferences nil — the
+    enforcer goroutine, hence the process, crashes. *)
 Fixpoint evict_loop (fuel : nat) (max : N) (boxes : list (str * mbox)) (all : list (str * mid * N)) (cur : N)
          (evs : list (lev mid)) : option (list (str * mbox) * list (str * mid * N) * N * list (lev mid)) :=
   match fuel with
@@ -93,7 +98,7 @@ Fixpoint evict_loop (fuel : nat) (max : N) (boxes : list (str * mbox)) (all : li
         | (mb, i, sz) :: all' =>
             match box_remove mb i boxes with
             | Some boxes' => evict_loop f max boxes' all' (cur - sz) (evs ++ [(EDeleted, mb, i)])
-            | None => evict_loop f max boxes all' cur evs
+            | None => evict_loop f max boxes all' (cur - sz) evs
             end
         end
       else Some (boxes, all, cur, evs)
